@@ -1,7 +1,6 @@
 package main
 
 import (
-	"time"
 	"bytes"
 	"crypto/elliptic"
 	"crypto/sha512"
@@ -12,6 +11,7 @@ import (
 	"strconv"
 	"strings"
 	"sync"
+	"time"
 
 	"github.com/cloudflare/pat-go/ecdsa"
 	"github.com/cloudflare/pat-go/tokens/type3"
